@@ -3,7 +3,7 @@ use crate::scratch::*;
 use proptest::prelude::*;
 use rayon::prelude::*;
 use serde_json::json;
-use std::collections::BTreeMap;
+use std::collections::{BTreeMap, BTreeSet};
 use vcommon::{Check, Tier};
 
 #[derive(Debug, Clone)]
@@ -256,8 +256,28 @@ pub fn run(tier: Tier, _replay: Option<String>) -> i32 {
             }
         }
     }
+    // doc pages the generator does not write (pages of objects that no longer exist; recorded finding: the docs
+    // directory is never pruned): a run on a tree whose doc pages were all deleted shows which ones it owns. The others
+    // are no function of the wowm and are kept out of the perturbations (deleting one is, rightly, never repaired).
+    let mut leftover_docs: BTreeSet<String> = BTreeSet::new();
+    match Scratch::new() {
+        Err(e) => c.inconclusive(&e),
+        Ok(s) => {
+            for k in reference.keys().filter(|k| class_of(k) == Some("doc-page")) {
+                let _ = std::fs::remove_file(s.path(k));
+            }
+            let r = s.run_generator(&bin);
+            if r.status == Some(0) {
+                let snap = s.snapshot();
+                leftover_docs = reference.keys().filter(|k| class_of(k) == Some("doc-page") && !snap.contains_key(*k)).cloned().collect();
+            } else {
+                c.inconclusive("generator run on a tree without doc pages failed");
+            }
+        }
+    }
+    c.extra.insert("doc_pages_the_generator_does_not_write__kept_out_of_the_perturbations".into(), json!(leftover_docs.len()));
     // generated files universe
-    let files: Vec<String> = reference.keys().filter(|k| class_of(k).is_some()).cloned().collect();
+    let files: Vec<String> = reference.keys().filter(|k| class_of(k).is_some() && !leftover_docs.contains(*k)).cloned().collect();
     let mut per_class: BTreeMap<&str, Vec<usize>> = BTreeMap::new();
     for (i, f) in files.iter().enumerate() {
         per_class.entry(class_of(f).unwrap()).or_default().push(i);
